@@ -2367,12 +2367,29 @@ fn main() {
             if t.apply1(&s.der, i, Op::Duplicate).len() <= s.der.len() || t.apply1(&s.der, i, Op::Delete).len() >= s.der.len() {
                 ctx.machinery_error(format!("ancestor length fix-up failed on seed {}", s.name));
             }
+            // size classes are hit exactly, by every way of growing (checked on small definite-length seeds)
+            if s.der.len() < 1500 && !t.nodes[0].indef && t.nodes[0].tag & 0x20 != 0 {
+                for how in 0..3u8 { for (k, &target) in mutate::SIZE_CLASSES.iter().enumerate() {
+                    if t.nodes[0].len >= target { continue }
+                    match Tree::parse(&t.apply1(&s.der, 0, Op::Size(how, k as u8))) {
+                        Some(t2) if t2.nodes[0].len == target => {}
+                        Some(t2) if how == 1 && t2.nodes[0].len + 1 == target => {}   // repetition may leave one octet that no TLV can fill
+                        other => ctx.machinery_error(format!("size class {target} (how={how}) on seed {} gives content length {:?}", s.name, other.map(|t| t.nodes[0].len))),
+                    }
+                } }
+            }
             // a duplicated leaf must leave a well-formed object with more nodes
             match Tree::parse(&t.apply1(&s.der, i, Op::Duplicate)) {
                 _ if t.len() == 1 => {}
                 Some(t2) if t2.len() > t.len() => {}
                 _ => ctx.machinery_error(format!("duplicating a node of seed {} does not give a well-formed object", s.name)),
             }
+        }
+    }
+    for r in [11usize, 12, 100, 126, 127, 130, 140, 255, 270, 300, 65400, 65535, 65536, 65537] {
+        let f = mutate::filler(r);
+        if f.len() != r || f[0] != 0x30 || Tree::parse(&der::seq(&[f.clone()])).is_none() {
+            ctx.machinery_error(format!("filler({r}) is not a well-formed run of SEQUENCEs of that size"));
         }
     }
     let nworkers: usize = std::env::var("C04_WORKERS").ok().and_then(|s| s.parse().ok()).unwrap_or(16);
